@@ -50,8 +50,16 @@ pub fn worker_cache(a: &WorkerArgs) -> Accum {
     worker_cache_with(a, &profile, 1)
 }
 
+/// Near-capacity random walks over fixed-size tables (see `gen::dense_case`).
+pub fn worker_dense(a: &WorkerArgs) -> Accum {
+    worker_cache_strategy(a, gen::dense_case(), 31)
+}
+
 pub fn worker_cache_with(a: &WorkerArgs, profile: &Profile, salt: u64) -> Accum {
-    let strategy = gen::case(profile);
+    worker_cache_strategy(a, gen::case(profile), salt)
+}
+
+pub fn worker_cache_strategy(a: &WorkerArgs, strategy: proptest::strategy::BoxedStrategy<Case>, salt: u64) -> Accum {
     let acc = RefCell::new(Accum::default());
     let failed = RefCell::new(false);
     let mut runner = TestRunner::new(pt_config(a.cases, derive_seed(a.seed, a.index, salt)));
@@ -132,6 +140,21 @@ fn count_callbacks(pc: &PanicCase) -> Option<[u64; 9]> {
     Some(c)
 }
 
+/// Every crash point up to the 40th call; beyond that the batch / power-of-two
+/// boundaries, the middle and the last calls (an operation on a big cache makes
+/// thousands of calls of one kind).
+fn crash_points(count: u64) -> Vec<u64> {
+    let mut v: Vec<u64> = (1..=count.min(40)).collect();
+    if count > 40 {
+        for p in [63u64, 64, 65, 66, 127, 128, 129, 130, 255, 256, 257, 511, 512, 513, 1023, 1024, 1025, 1026, 2047, 2048, 2049, count / 2, count - 2, count - 1, count] {
+            if p > 40 && p <= count && p < 60000 && !v.contains(&p) {
+                v.push(p);
+            }
+        }
+    }
+    v
+}
+
 fn derived(pc: &PanicCase, cb: Cb, nth: u16) -> Case {
     let mut ops = pc.prefix.clone();
     ops.push(Op::Inject { cb, nth, late: pc.late });
@@ -158,8 +181,7 @@ pub fn worker_panic(a: &WorkerArgs) -> Accum {
             },
         };
         for cb in gen::PANIC_KINDS {
-            let c = counts[cb.idx()].min(48);
-            for n in 1..=c {
+            for n in crash_points(counts[cb.idx()]) {
                 let case = derived(&pc, cb, n as u16);
                 write_current(a.out, &case.to_text());
                 let out = run_case(&case, Some(prop), false);
@@ -204,7 +226,7 @@ pub fn worker_panic(a: &WorkerArgs) -> Accum {
             let mut found = None;
             if let Some(counts) = count_callbacks(&pc) {
                 'outer: for cb in gen::PANIC_KINDS {
-                    for n in 1..=counts[cb.idx()].min(48) {
+                    for n in crash_points(counts[cb.idx()]) {
                         let case = derived(&pc, cb, n as u16);
                         let out = run_case(&case, Some(prop), true);
                         if let Verdict::Violation(f) = judge(&out.fails, prop, a.known) {
@@ -561,7 +583,16 @@ pub fn shared_case_strategy() -> proptest::strategy::BoxedStrategy<SharedCase> {
     p.insert = 40;
     p.clear = 0;
     p.max_ops = 30;
-    gen::case(&p).prop_flat_map(|prefix| {
+    let bulk = prop_oneof![6 => Just(None), 1 => (1100u16..2600).prop_map(Some)];
+    (gen::case(&p), bulk).prop_flat_map(|(mut prefix, bulk)| {
+        if let Some(n) = bulk {
+            // a big, dense cache: whole-table fast paths only exist there
+            prefix.config.universe = 4096;
+            prefix.config.limit = LimSel::Max;
+            prefix.config.capacity = None;
+            prefix.ops.truncate(6);
+            prefix.ops.insert(0, Op::InsertMany { count: n, vheap: 0 });
+        }
         let u = prefix.config.universe;
         (Just(prefix), proptest::collection::vec(proptest::collection::vec(sop_strategy(u), 1..10), 2..=4))
     }).prop_map(|(prefix, threads)| SharedCase { prefix, threads }).boxed()
@@ -748,48 +779,83 @@ pub fn worker_variants(a: &WorkerArgs) -> Accum {
 /// further use. Targets growth / rehash / tombstone reuse decisions.
 pub fn geometry_cases() -> Vec<Case> {
     let mut out = Vec::new();
-    for &b in &[4usize, 8, 16, 32, 64] {
+    for &b in &[4usize, 8, 16, 32, 64, 128, 256] {
         let cap = if b < 8 { b - 1 } else { b / 8 * 7 };
-        let mut fills = vec![cap, cap.saturating_sub(1).max(1), (cap / 2).max(1)];
+        let big = b >= 128;
+        let mut fills = vec![cap, cap.saturating_sub(1).max(1)];
+        if !big { fills.push((cap / 2).max(1)); }
         fills.dedup();
         for &fill in &fills {
-            for &displaced in &[0usize, 1, 3] {
+            for &displaced in &[0usize, 2] {
                 if displaced >= fill { continue; }
-                let mut keeps = vec![0usize, 1, 3, (cap / 4).max(1)];
+                let mut keeps = vec![0usize, 1, 2, 3, cap / 4, (cap / 2).saturating_sub(1), cap / 2, cap / 2 + 1, cap * 9 / 16, fill.saturating_sub(2)];
+                keeps.retain(|k| *k <= fill);
                 keeps.sort();
                 keeps.dedup();
+                if big {
+                    // every entry count matters for growth targets, but keep it affordable
+                    keeps = vec![0, 3, cap / 4, cap * 3 / 8, cap / 2 + 1, cap * 9 / 16];
+                }
                 for &keep in &keeps {
-                    if keep > fill { continue; }
-                    for descending in [false, true] {
-                        let homes: Vec<usize> = if b <= 32 { (0..b).collect() } else { (0..b).step_by(3).collect() };
+                    let orders: &[(bool, bool)] = if big { &[(false, false), (false, true)] } else { &[(false, false), (true, false), (false, true)] };
+                    for &(descending, keep_high) in orders {
+                        // the state
+                        let mut build = Vec::new();
+                        let seq = fill - displaced;
+                        let mut keys: Vec<u16> = (0..seq as u16).collect();
+                        for d in 0..displaced {
+                            keys.push((b + (d * 5) % b) as u16);
+                        }
+                        for (i, k) in keys.iter().enumerate() {
+                            build.push(Op::Insert { key: KeySel::Raw(*k), kheap: 0, size: SizeSel::Abs((i % 3) as u32) });
+                        }
+                        let mut survivors: Vec<u16> = keys.iter().rev().take(displaced.min(keep)).copied().collect();
+                        let pool: Vec<u16> = if keep_high { keys.iter().rev().copied().collect() } else { keys.clone() };
+                        for k in pool.iter() {
+                            if survivors.len() >= keep { break; }
+                            if !survivors.contains(k) { survivors.push(*k); }
+                        }
+                        let mut victims: Vec<u16> = keys.iter().copied().filter(|k| !survivors.contains(k)).collect();
+                        if descending { victims.reverse(); }
+                        for (i, k) in victims.iter().enumerate() {
+                            build.push(if i % 2 == 0 { Op::Remove { key: KeySel::Raw(*k), form: Form::Owned } }
+                                else { Op::RemoveEntry { key: KeySel::Raw(*k), form: Form::Borrowed } });
+                        }
+                        // first operations on that state
+                        let homes: Vec<usize> = if b <= 32 { (0..b).collect() }
+                            else if b == 64 { vec![0, 1, 9, 17, 31, 40, 55, 56, 60, 63] }
+                            else { vec![0, 7, b / 2, cap - 1, cap, cap + 3, b - 1] };
+                        let mut firsts: Vec<Vec<Op>> = Vec::new();
                         for &home in &homes {
-                            let mut ops = Vec::new();
-                            let seq = fill - displaced;
-                            let mut keys: Vec<u16> = (0..seq as u16).collect();
-                            for d in 0..displaced {
-                                keys.push((b + d * 5 % b.max(1)) as u16 + 0);
+                            firsts.push(vec![Op::Insert { key: KeySel::Raw((home + 2 * b) as u16), kheap: 0, size: SizeSel::Abs(1) }]);
+                        }
+                        if b >= 16 {
+                            firsts.push(vec![Op::TryInsert { key: KeySel::Raw((cap + 1 + 2 * b) as u16), kheap: 0, size: SizeSel::Zero }]);
+                            if keep > 0 {
+                                firsts.push(vec![Op::Insert { key: KeySel::Lru, kheap: 0, size: SizeSel::Abs(2) }]);
+                                firsts.push(vec![Op::Insert { key: KeySel::Mru, kheap: 1, size: SizeSel::Abs(5) }]);
+                                firsts.push(vec![Op::Retain { mask: 0x5555_5555_5555_5555, by_key: false }]);
+                                firsts.push(vec![Op::Retain { mask: 0x0000_ffff_0000_ffff, by_key: true }]);
+                                firsts.push(vec![Op::Retain { mask: !0, by_key: false }]);
+                                firsts.push(vec![Op::SetMaxSize(LimSel::CurPlus(0)), Op::SetMaxSize(LimSel::KeepMru(2, 0))]);
+                                firsts.push(vec![Op::SetMaxSize(LimSel::CurPlus(0)), Op::Insert { key: KeySel::Raw((cap + 2 * b) as u16), kheap: 0, size: SizeSel::NeedEvict(2, 0) }]);
+                                firsts.push(vec![Op::SetMaxSize(LimSel::CurPlus(0)), Op::Mutate { key: KeySel::Mru, form: Form::Owned, size: SizeSel::NeedEvict(1, 0) }]);
+                                firsts.push(vec![Op::SetMaxSize(LimSel::CurPlus(0)), Op::Mutate { key: KeySel::Lru, form: Form::Borrowed, size: SizeSel::MaxPlus(0) }]);
+                                firsts.push(vec![Op::Clone(CloneMode::Swap)]);
+                                firsts.push(vec![Op::Clone(CloneMode::From)]);
+                                firsts.push(vec![Op::IterWalk { kind: IterKind::Drain, calls: vec![false, true], rest: Rest::Stop, fate: Fate::Drop }]);
                             }
-                            for (i, k) in keys.iter().enumerate() {
-                                ops.push(Op::Insert { key: KeySel::Raw(*k), kheap: 0, size: SizeSel::Abs((i % 3) as u32) });
-                            }
-                            // survivors: the displaced keys first, then the lowest sequential ones
-                            let mut survivors: Vec<u16> = keys.iter().rev().take(displaced.min(keep)).copied().collect();
-                            for k in keys.iter() {
-                                if survivors.len() >= keep { break; }
-                                if !survivors.contains(k) { survivors.push(*k); }
-                            }
-                            let mut victims: Vec<u16> = keys.iter().copied().filter(|k| !survivors.contains(k)).collect();
-                            if descending { victims.reverse(); }
-                            for (i, k) in victims.iter().enumerate() {
-                                ops.push(if i % 2 == 0 { Op::Remove { key: KeySel::Raw(*k), form: Form::Owned } }
-                                    else { Op::RemoveEntry { key: KeySel::Raw(*k), form: Form::Borrowed } });
-                            }
-                            let newkey = (home + 2 * b) as u16;
-                            ops.push(Op::Insert { key: KeySel::Raw(newkey), kheap: 0, size: SizeSel::Abs(1) });
+                            firsts.push(vec![Op::Clear]);
+                            firsts.push(vec![Op::ShrinkToFit]);
+                            firsts.push(vec![Op::Reserve(CapArg::Abs(1))]);
+                        }
+                        for first in firsts {
+                            let mut ops = build.clone();
+                            ops.extend(first);
                             ops.push(Op::Get { key: KeySel::Lru, form: Form::Owned });
                             ops.push(Op::IterWalk { kind: IterKind::Iter, calls: vec![true], rest: Rest::Front, fate: Fate::Drop });
-                            ops.push(Op::Insert { key: KeySel::Raw((home + 3 * b + 1) as u16), kheap: 0, size: SizeSel::Zero });
-                            ops.push(Op::TryInsert { key: KeySel::Raw((home + 4 * b + 2) as u16), kheap: 0, size: SizeSel::Zero });
+                            ops.push(Op::Insert { key: KeySel::Raw((3 * b + 1) as u16), kheap: 0, size: SizeSel::Zero });
+                            ops.push(Op::TryInsert { key: KeySel::Raw((3 * b + 2) as u16), kheap: 0, size: SizeSel::Zero });
                             ops.push(Op::Remove { key: KeySel::Mru, form: Form::Borrowed });
                             ops.push(Op::ShrinkToFit);
                             ops.push(Op::Clone(CloneMode::Check));
